@@ -154,7 +154,11 @@ func (m *Machine) binop(fr *frame, op token.Token, t types.Type, x, y value) val
 			r := make([]*Term, 0, len(xv.R)+len(yv.R))
 			r = append(r, xv.R...)
 			r = append(r, yv.R...)
-			return Str{R: r, Opaque: xv.Opaque || yv.Opaque}
+			if xv.Opaque || yv.Opaque {
+				// the opaque part is kept as one tag describing the whole text
+				return Str{Opaque: true, OTag: xv.repr() + "+" + yv.repr()}
+			}
+			return Str{R: r}
 		case token.EQL:
 			return m.strEq(xv, yv)
 		case token.NEQ:
